@@ -261,14 +261,11 @@ class History:
             if not self.ro:
                 self.npoly = 0
         elif k < 0.90:
-            if self.ro and self.origin_set:
-                # H5Awrite on an existing attribute of a read-only file throws but stays visible to the
-                # session (model: ro_origin; a C08/C09 matter) - only in the opt-in stream `xprobe`
+            self.lines.append('origin ' + self.coeff())     # read-only: refused, nothing changes
+            if not self.ro:
+                self.origin_set = True
+            elif self.r.random() < 0.5:
                 self.lines.append('cal')
-            else:
-                self.lines.append('origin ' + self.coeff())
-                if not self.ro:
-                    self.origin_set = True
         else:
             self.lines.append('origin none')
             if not self.ro:
@@ -305,7 +302,7 @@ class History:
         """argument-shape boundaries: every one has a definite answer in the model (no UB here)"""
         r = self.r
         rank = len(self.shape)
-        k = r.randrange(12)
+        k = r.randrange(13)
         a = r.randrange(rank)
         if k in (0, 1):        # offset + count = extent (legal) and extent + 1 (refused)
             off = [0] * rank
@@ -368,12 +365,25 @@ class History:
         elif k == 10:          # type classes that do not convert
             if self.dt == 'String':
                 self.lines.append('readas %s ; %s' % (r.choice(['Int32', 'Double', 'Bool']), fmt(self.shape)))
-            elif self.npoly or self.origin_set:
-                # a calibrated read as String overwrites the caller's std::string objects with doubles before it
-                # throws (model: UB; a C16 matter) - only in the opt-in stream `xprobe`; raw reads are safe
-                self.lines.append('rawas String ; %s' % fmt(self.shape))
-            else:
+            else:       # also under calibration: refused before anything is read
                 self.lines.append('readas %s ; %s' % (r.choice(['String', 'Bool'] if self.dt != 'Bool' else ['String']), fmt(self.shape)))
+        elif k == 12:          # count / offset SHORTER than the rank: refused (InvalidRank), whatever else is wrong
+            if rank >= 2:
+                off, cnt = self.box()
+                n = r.randint(1, rank - 1)
+                which = r.randrange(4)
+                if which == 0:
+                    self.lines.append('read %s ; %s' % (fmt(off[:n]), fmt(cnt[:n])))
+                elif which == 1:
+                    self.lines.append('read %s ;' % fmt(off[:n]))
+                elif which == 2:
+                    self.lines.append('read %s ; %s' % (fmt(off), fmt(cnt[:n])))
+                else:
+                    self.lines.append('write %s ; %s ; %s' % (fmt(off[:n]), fmt(cnt[:n]), self.vals(prod(cnt[:n]))))
+                    if self.safe_to_read():
+                        self.lines.append('read ; %s' % fmt(self.shape))
+            else:
+                self.lines.append('read 0 ; %s' % fmt([1] * 33 if r.random() < 0.5 else []))
         else:                  # more than 32 count entries
             if self.safe_to_read():
                 self.lines.append('read %s ; %s' % (fmt([0] * rank), fmt([1] * 33)))
@@ -440,20 +450,21 @@ def string_unwritten_cases(rnd, n):
     return out
 
 
-def ubprobe_cases(rnd):
-    """count/offset SHORTER than the data rank: H5Sselect_hyperslab reads `rank` entries from both NDSize
-    buffers, i.e. past their end (undefined behaviour inside uninstrumented HDF5).  Only on request."""
+def short_arg_cases(rnd):
+    """count/offset SHORTER than the data rank: refused with InvalidRank by the guard in offsetCount2DataSpaces
+    (before the repair HDF5 read past the NDSize buffers); nothing may change"""
     out = []
-    for dt in ('Int32', 'Double'):
+    for dt in ('Int32', 'Double', 'String'):
         for sh in ([2, 3], [3, 2, 2], [2, 2, 2, 2]):
             g = Gen(rnd)
             base = ['create %s none %s' % (dt, fmt(sh)), 'write ; %s ; %s' % (fmt(sh), g.values(dt, prod(sh), False))]
             short = sh[:-1]
-            out.append(Case(base + ['read %s ; %s' % (fmt([0] * len(short)), fmt([1] * len(short)))], 'ubprobe'))
-            out.append(Case(base + ['read %s ;' % fmt([0] * len(short))], 'ubprobe'))
-            out.append(Case(base + ['read %s ; %s' % (fmt([0] * len(sh)), fmt([1] * len(short)))], 'ubprobe'))
+            out.append(Case(base + ['read %s ; %s' % (fmt([0] * len(short)), fmt([1] * len(short)))], 'short-args'))
+            out.append(Case(base + ['read %s ;' % fmt([0] * len(short))], 'short-args'))
+            out.append(Case(base + ['read %s ; %s' % (fmt([0] * len(sh)), fmt([1] * len(short)))], 'short-args'))
+            out.append(Case(base + ['read 0 ; %s' % fmt([1] * 33)], 'short-args'))       # rank guard comes before the memory space
             out.append(Case(base + ['write %s ; %s ; %s' % (fmt([0] * len(short)), fmt([1] * len(short)), g.values(dt, 1, False)),
-                                    'read ; %s' % fmt(sh)], 'ubprobe'))
+                                    'read ; %s' % fmt(sh), 'reopen ro', 'read 0 ; 1', 'write 0 ; 1 ; %s' % g.values(dt, 1, False)], 'short-args'))
     return out
 
 
@@ -464,14 +475,9 @@ def wrapprobe_cases():
 
 
 def xprobe_cases():
-    """defects met while building this check that belong to other properties (C08/C09/C16).  Only on request."""
-    return wrapprobe_cases() + [
-        # read-only session: setting an existing origin throws, yet the session sees the new value
-        Case(['create Int32 none 2', 'write ; 2 ; 4 5', 'origin d:4000000000000000', 'reopen ro', 'origin d:3ff0000000000000',
-              'cal', 'read ; 2', 'reopen ro', 'cal'], 'xprobe-ro-origin'),
-        # calibrated read requested as String: doubles are written over the caller's std::string objects
-        Case(['create Int32 none 2', 'write ; 2 ; 4 5', 'origin d:4000000000000000', 'readas String ; 2'], 'xprobe-cal-string'),
-    ]
+    """a defect met while building this check that is still unrepaired and belongs to C08: appendData computes
+    extent[axis] + count[axis] in 64 bits without an overflow check.  Only on request (NIXV_C01_XPROBE=1)."""
+    return wrapprobe_cases()
 
 
 def fixed_cases():
@@ -514,6 +520,14 @@ def fixed_cases():
                    'poly d:3fb999999999999a d:3fd3333333333333 d:3fe6666666666666 d:3ff199999999999a', 'origin d:3fc999999999999a',
                    'read ; 4', 'readas Float ; 4', 'raw ; 4', 'poly d:0000000000000000 d:7ff0000000000000', 'read ; 4', 'poly none', 'read ; 4',
                    'origin none', 'read ; 4', 'poly', 'cal', 'read ; 4'], 'fixed-poly'))
+    # repaired defects, now ordinary refusals: overwriting an existing origin in a read-only session changes nothing;
+    # a calibrated read requested as String throws before anything is read
+    c.append(Case(['create Int32 none 2', 'write ; 2 ; 4 5', 'origin d:4000000000000000', 'reopen ro', 'origin d:3ff0000000000000',
+                   'cal', 'read ; 2', 'reopen ro', 'cal', 'reopen rw', 'cal'], 'fixed-readonly'))
+    c.append(Case(['create Int32 none 2', 'write ; 2 ; 4 5', 'origin d:4000000000000000', 'readas String ; 2', 'readas String 0 ; 1',
+                   'readas String ; 0', 'readas String 0 ; 1 1 1', 'rawas String ; 2', 'read ; 2', 'origin none', 'poly d:3ff0000000000000',
+                   'readas String ; 2', 'read ; 2'], 'fixed-cal-string'))
+    c.append(Case(['create String none 2', 'write ; 2 ; s:61 s:62', 'origin d:4000000000000000', 'read ; 2', 'raw ; 2'], 'fixed-cal-string'))
     return c
 
 
@@ -534,12 +548,11 @@ class C01(Prop):
                   'hyperslab transfer, chunking/deflate transparent, close flushes) and its hard type conversions as observed on this '
                   'x86-64 build; both are re-checked by every correspondence run.  Excluded from the compared domain: NaN -> integer '
                   'conversion (C cast of NaN; answer ANY), strings containing NUL, extents/offsets near 2^63, the extent value 2^64-1.  '
-                  'Where the code has undefined behaviour the model says UB and the default stream stays away: count/offset shorter '
-                  'than the rank (opt-in stream NIXV_C01_UBPROBE=1), calibrated read requested as String, and two further defects that '
-                  'belong to C08/C09 (append whose extent overflows 64 bits; overwrite of an existing origin in a read-only session) - '
-                  'opt-in stream NIXV_C01_XPROBE=1; history_refines excludes exactly the last two (op_dom) and each is exhibited by a '
-                  'computed witness (C01_append_wrap_shrinks, C01_ro_origin_trace).  The theorems depend on the standard-library '
-                  'axioms of the classical reals only through Flocq (the float values embed Flocq proofs).')
+                  'The slab selection is proved free of undefined behaviour (count/offset shorter than the rank are refused; these '
+                  'calls are part of the default stream).  One defect that belongs to C08 is still mirrored by the model and kept in '
+                  'the opt-in stream NIXV_C01_XPROBE=1: an append whose extent overflows 64 bits shrinks the array; history_refines '
+                  'excludes exactly that (op_dom) and it is exhibited by the computed witness C01_append_wrap_shrinks.  The theorems '
+                  'depend on the standard-library axioms of the classical reals only through Flocq (the float values embed Flocq proofs).')
     technique = 'Coq proof (row-major model refines pointwise history specification) + differential histories on real HDF5 files'
     nontrivial_rule = ('histories of 3-12 calls over {write slab, whole write, offset-only write, append, set extent (grow/shrink/zero), '
                        'read / readas / raw / vector read, polynomial, origin, reopen ro/rw, argument-shape boundaries}; type x rank 1-4 x '
@@ -549,7 +562,7 @@ class C01(Prop):
                    'HDF5 hard conversions as observed on x86-64/gcc 12 (clamping; hardware cast at the rounded-up maximum; >FLT_MAX -> inf)',
                    'compression setting has no effect on values',
                    'NaN -> integer reads, NUL bytes in strings, NDSize::nelms overflow and extents >= 2^63 are outside the compared domain',
-                   'history_refines: no append overflows 2^64 and all arguments are 64-bit unsigned values (op_dom)']
+                   'history_refines: no append overflows 2^64 and extents are 64-bit unsigned values (op_dom)']
     trusted_base = ['hand-written model coq/Data/NDArr.v (mirrors the C++ call path; tied by the correspondence run)',
                     'pointwise specification coq/Data/NDSpec.v (extracted; judges every read of the implementation)',
                     'Flocq 4 binary32/binary64 (BinarySingleNaN) for Float/Double values, conversions and applyPolynomial']
@@ -593,8 +606,7 @@ class C01(Prop):
                 h = make_history(rnd, dt, rnd.choice([1, 2, 3]), None, rnd.randint(5, 12), [20, 10, 3, 3, 2, 50, 5, 2, 5])
                 cases.append(Case(h.lines, 'calibrated'))
             cases += string_unwritten_cases(rnd, nstr)
-        if os.environ.get('NIXV_C01_UBPROBE') == '1':
-            cases += ubprobe_cases(random.Random(seed))
+        cases += short_arg_cases(random.Random(seed))
         if os.environ.get('NIXV_C01_XPROBE') == '1':
             cases += xprobe_cases()
         return cases
@@ -606,8 +618,6 @@ class C01(Prop):
         k = next((i for i, (a, b) in enumerate(zip(impl, spec)) if b != 'ANY' and not self.compare(a, b)), 0)
         op = case.lines[k].split(' ')[0]
         a, b = impl[k], spec[k]
-        if case.tag == 'ubprobe':
-            return {'kind': 'count-or-offset-shorter-than-rank', 'op': op}
         if case.tag.startswith('xprobe'):
             return {'kind': case.tag, 'op': op}
         if dt == 'String' and a.startswith('CRASH') and b.startswith('OK [') and ' s: ' in b + ' ':
